@@ -72,7 +72,7 @@ def has_helper(t):
 
 
 def check_pair(ctx, kind, n, m, op, parser, lexer, ks, rep=None):
-    rep = rep or (op if op in ('?', '*', '+') else '~%d' % n if n == m and ctx.rng.random() < 0.7 else '~%d..%d' % (n, m)))
+    rep = rep or (op if op in ('?', '*', '+') else ('~%d' % n if n == m and ctx.rng.random() < 0.7 else '~%d..%d' % (n, m)))
     text, per = grammar(kind, rep)
     lo, hi = {'?': (0, 1), '*': (0, 10 ** 9), '+': (1, 10 ** 9)}.get(op, (n, m))
     opts = {'parser': parser, 'lexer': lexer}
